@@ -217,7 +217,7 @@ fn generate(rng: &mut Rng) -> C14Sc {
     C14Sc {
         net: NetScenario {
             seed: rng.next_u64(),
-            cfg: NetCfg { secret, expiry: Some(expiry), max_frame: Some(max_frame), timeout_ns: secs(timeout_s), proxy, limiter: None, use_start, agones: false, secret_source },
+            cfg: NetCfg { secret, expiry: Some(expiry), max_frame: Some(max_frame), timeout_ns: secs(timeout_s), proxy, limiter: None, use_start, agones: false, secret_source, localization_from_services: false },
             wall,
             services,
             clients,
